@@ -113,11 +113,17 @@ def evaluate_reference(affix: str) -> bool:
             return raised or got == value + affix
         return True
     if STEM in ("$request.query.", "$request.header.", "$response.header.", "$request.path."):
-        if affix == "" or not _plain(affix) or "." in affix:
-            return True if affix != "" else raised  # '$request.query.' alone is malformed
+        if affix == "":
+            return raised  # '$request.query.' alone is malformed
+        if any(c in affix for c in "{}#"):
+            return True  # embedding / extractor syntax: outside this oracle
         table = {"$request.query.": {"q": "QV", "i": "IV"}, "$request.header.": {"x-h": "HV", "a": "AV"}, "$response.header.": {"x-token": "T"}, "$request.path.": {}}[STEM]
         key = affix.lower() if "header" in STEM else affix
         want = table.get(key, UNRESOLVABLE)
+        if not _plain(affix) or "." in affix:
+            # trailing text after NAME ('$request.query.q.x', '$request.query.q$method'): either rejected as malformed, or (reading the
+            # whole rest as the name, as the OpenAPI ABNF allows) the value of that parameter - never the value of a shorter name plus garbage
+            return raised or got is want or got == want
         return not raised and (got is want or got == want)
     if STEM in ("$response.body#", "$request.body#"):
         if any(c in affix for c in "}{$"):
@@ -196,6 +202,78 @@ def link_extraction(body_id: int, has_id: bool, name: str, qv: str, has_q: bool,
     return extracted == {"name": name, "fixed": 7, "n": {"k": hv}}
 
 
+
+# ---------------------------------------------------------------------------------------------------------------
+# the derived request: every resolvable link value (falsy ones included) is handed to the generator as a fixed value
+
+from schemathesis.generation import GenerationMode
+from schemathesis.specs.openapi import stateful as osf
+
+
+class _LinkProxy:
+    current = None
+
+    def extract(self, output):
+        return self.current.extract(output)
+
+    @property
+    def merge_body(self):
+        return self.current.merge_body
+
+
+class _TargetProxy:
+    calls: list = []
+
+    def as_strategy(self, **kwargs):
+        self.calls.append(kwargs)
+        return kwargs
+
+
+_LINK, _TARGET = _LinkProxy(), _TargetProxy()
+_LINK.current = LINKS["get"]
+STEP_INPUT = osf.into_step_input(_TARGET, _LINK, [GenerationMode.POSITIVE])(None).wrapped_strategy.definition
+ID_VALUES = [0, 5, -1, False, True, "", "0", "u1", None]
+
+
+def derived_step(idx: int, has_id: bool, qv: str, has_q: bool, hv: str, has_h: bool, link: int) -> bool:
+    """
+    pre: 0 <= idx < len(ID_VALUES) and len(qv) <= 2 and len(hv) <= 1 and 0 <= link <= 1
+    post: _
+    """
+    body_id = pick(ID_VALUES, idx)
+    body = {"name": "n"}
+    if has_id:
+        body["id"] = body_id
+    out = make_output(status=201, body=body, query={"q": qv} if has_q else None, req_header={"X-H": hv} if has_h else None)
+    _LINK.current = LINKS[pick(["get", "patch"], link)]
+    _TARGET.calls = []
+    saved = osf.strategies.combine
+    osf.strategies.combine = lambda items: items[0]
+    try:
+        step = STEP_INPUT(lambda kwargs: mk_case(_LINK.current.target, "d", **{k: v for k, v in kwargs.items() if k != "generation_mode"}), output=out)
+    finally:
+        osf.strategies.combine = saved
+    if len(_TARGET.calls) != 1:
+        return False
+    kwargs = _TARGET.calls[0]
+    # link-supplied values override generated ones: 0, False and '' are values like any other; only null / unresolvable are left to the generator
+    want_path = {"id": body_id} if has_id and body_id is not None else {}
+    got_path = kwargs.get("path_parameters", {})
+    if set(got_path) != set(want_path) or any(got_path[k] is not want_path[k] and got_path[k] != want_path[k] for k in want_path):
+        return False
+    if "id" in got_path and type(got_path["id"]) is not type(body_id):
+        return False
+    if link == 0:
+        return "body" not in kwargs and step.case.path_parameters == want_path
+    if kwargs.get("query", {}) != ({"v": qv} if has_q else {}):
+        return False
+    expected = {"name": "n", "fixed": 7, "n": {"k": hv}}
+    if not has_h:
+        return "body" not in kwargs and not isinstance(step.case.body, dict)  # a body with an unresolvable part is never sent half-filled
+    # the link's body reaches the derived case (handed to the generator, or merged into the generated body)
+    return step.case.body == expected and ("body" not in kwargs or kwargs["body"] == expected)
+
+
 def status_tables(replay=None):
     """E3: the response matchers of the assembled state machine vs the reading 'exact code, NXX range, default = no other documented code'."""
     import time
@@ -260,6 +338,10 @@ OBLIGATIONS = [
        timeout={"quick": 300, "thorough": 600}, functions=["schemathesis.specs.openapi.stateful.links.OpenApiLink.extract_parameters", "schemathesis.specs.openapi.stateful.links.OpenApiLink.extract_body",
                                                             "schemathesis.specs.openapi.expressions._evaluate_nested"] + _E[6:7],
        symbolic="response body id (present or not), name text, source query / header values (present or not), which of two links", bounds="strings <= 2 characters, id in -5..99"),
+    Ob(fn="derived_step", clause="link-supplied values override generated ones: every resolvable value - 0, false and the empty string included - is passed to the generator as the fixed value of its parameter / body; null and unresolvable ones are left to the generator",
+       timeout={"quick": 300, "thorough": 600}, functions=["schemathesis.specs.openapi.stateful.into_step_input (composite body)", "schemathesis.specs.openapi.stateful.links.OpenApiLink.extract"],
+       symbolic="which of 9 values (0, 5, -1, false, true, '', '0', 'u1', null) the source response holds under /id or its absence; source query / header text or absence; which of two links",
+       bounds="strings <= 2 characters", stubs=["target.as_strategy replaced by a recorder of its keyword arguments", "draw() builds the case from those arguments", "strategies.combine of one mode returns it"]),
     Ob(fn="status_tables", kind="z3", clause="a link is followed only from a response whose status matches its key: exact code, NXX range, or default = no other documented code (documented codes without links included)",
        timeout=300, functions=["schemathesis.specs.openapi.stateful.create_state_machine", "schemathesis.specs.openapi.stateful.make_response_filter",
                                "schemathesis.specs.openapi.stateful.match_status_code", "schemathesis.specs.openapi.stateful.default_status_code", "schemathesis.specs.openapi.stateful.make_response_matcher"],
